@@ -17,8 +17,8 @@
      Muxer.Close                           WIdle -> CLocked -> CSet -> CUnlocked -> CStreams 0..n
                                            (hook close:broadcasted) -> WFinished
    Exit paths are as written: the three handlers with [defer Unlock] go through [PUnlock];
-   the hint closure unlocks explicitly on its normal path ([PUnlockCall]) and NOT AT ALL on
-   its [s.closed] path ([TLeak]). *)
+   the hint closure unlocks explicitly: before answering 500 on its [s.closed] path (also
+   [PUnlock]) and before calling the part's handler on its normal path ([PUnlockCall]). *)
 From Coq Require Import List ZArith Lia Bool String.
 From GoHls Require Import Lib.MuxSched Model.MuxConcSeq.
 Import ListNotations.
@@ -43,6 +43,7 @@ Inductive response :=
 | R200Part (stream : nat) (id : Z)   (* the part handler ran: that part's bytes *)
 | R200Seg (stream : nat) (id : Z)
 | R400
+| R404
 | R500
 | RNone                              (* nothing written: net/http answers an empty 200 *)
 | RPanic.
@@ -52,7 +53,7 @@ Definition is_200 (r : response) : bool :=
 
 Inductive frame :=
 | FMulti
-| FBlocking (i : nat) (msnint partint : Z) (delta : bool)
+| FBlocking (i : nat) (msnint : Z) (P : option Z) (delta : bool)
 | FPlain (i : nat) (delta : bool)
 | FHint (i : nat) (id : Z).
 
@@ -70,17 +71,14 @@ Inductive rpc :=
 Record rstate := {
   r_req : request;
   r_pc : rpc;
-  r_leaked : bool;          (* returned from a handler without releasing the mutex *)
   (* ghost: *)
   r_waits : nat;            (* how many times it went to sleep *)
   r_stamp : option Z;       (* writer progress counter when the response was decided *)
-  r_at : option mux;        (* the shared state in which the response was decided *)
-  r_slept_late : bool       (* went to sleep after Close had already broadcast *)
+  r_at : option mux         (* the shared state in which the response was decided *)
 }.
 
 Definition req_init (r : request) : rstate :=
-  {| r_req := r; r_pc := PStart; r_leaked := false; r_waits := 0%nat; r_stamp := None;
-     r_at := None; r_slept_late := false |}.
+  {| r_req := r; r_pc := PStart; r_waits := 0%nat; r_stamp := None; r_at := None |}.
 
 Inductive wpc :=
 | WIdle                 (* between operations *)
@@ -88,9 +86,9 @@ Inductive wpc :=
 | WRotated              (* rotate*Inner done, mutex held *)
 | WUnlocked             (* mutex.Unlock() done; cond.Broadcast() owed *)
 | CLocked               (* Close: mutex.Lock() done *)
-| CSet                  (* m.closed = true, mutex held *)
+| CSet                  (* m.closed = true and every stream.closed = true, mutex held *)
 | CUnlocked             (* mutex.Unlock() done; cond.Broadcast() owed *)
-| CStreams (k : nat)    (* broadcast done; stream k is closed next *)
+| CStreams (k : nat)    (* broadcast done; stream.close() of stream k (file removal) is next *)
 | WFinished             (* Close returned *)
 | WCrashed.             (* unrecovered panic in the writer goroutine: the process is gone *)
 
@@ -113,9 +111,8 @@ Definition is_waiting (r : rstate) : bool :=
 
 Definition wake (r : rstate) : rstate :=
   match r_pc r with
-  | PWaiting f => {| r_req := r_req r; r_pc := PWoken f; r_leaked := r_leaked r;
-                     r_waits := r_waits r; r_stamp := r_stamp r; r_at := r_at r;
-                     r_slept_late := r_slept_late r |}
+  | PWaiting f => {| r_req := r_req r; r_pc := PWoken f;
+                     r_waits := r_waits r; r_stamp := r_stamp r; r_at := r_at r |}
   | _ => r
   end.
 
@@ -178,7 +175,7 @@ Definition call (m : mux) (q : query) (h : option handler) : rpc :=
   | Some (HMedia i) =>
       match handleMediaPlaylist_pre (m_variant m) q with
       | MK400 => PDone R400
-      | MKBlocking msnint partint delta => PLock (FBlocking i msnint partint delta)
+      | MKBlocking msnint P delta => PLock (FBlocking i msnint P delta)
       | MKPlain delta => PLock (FPlain i delta)
       end
   | Some (HPart i id) => PDone (R200Part i id)
@@ -187,8 +184,7 @@ Definition call (m : mux) (q : query) (h : option handler) : rpc :=
   end.
 
 Inductive tres :=
-| TExit (r : response)             (* return; the deferred Unlock runs *)
-| TLeak (r : response)             (* return WITHOUT Unlock *)
+| TExit (r : response)             (* return; the deferred / explicit Unlock runs *)
 | TBreakHint (h : option handler)  (* break; getPathHandler; Unlock; h(w, r) *)
 | TWait.                           (* cond.Wait() *)
 
@@ -207,12 +203,12 @@ Definition test (m : mux) (q : query) (f : frame) : tres :=
            | None => TExit RPanic                        (* m.streams[0]: index out of range *)
            | Some s0 => if hasContent (m_variant m) s0 then TExit R200Multi else TWait
            end
-  | FBlocking i msnint partint delta =>
+  | FBlocking i msnint P delta =>
       match nth_error (m_streams m) i with
       | None => TExit RPanic
       | Some s =>
           if s_closed s then TExit R500
-          else match decide_core (m_variant m) s msnint partint with
+          else match decide_core (m_variant m) s msnint P with
                | Respond400 => TExit R400
                | Ready => TExit (playlist_response (m_variant m) s delta q)
                | DPanic => TExit RPanic
@@ -232,7 +228,7 @@ Definition test (m : mux) (q : query) (f : frame) : tres :=
       match nth_error (m_streams m) i with
       | None => TExit RPanic
       | Some s =>
-          if s_closed s then TLeak R500
+          if s_closed s then TExit R500
           else if id <? nextPartID s then TBreakHint (lookupPath (m_paths m) (PPart i id))
                else TWait
       end
@@ -242,20 +238,21 @@ Definition close_broadcast_done (w : wpc) : bool :=
   match w with CStreams _ | WFinished => true | _ => false end.
 
 Definition set_pc (r : rstate) (pc : rpc) : rstate :=
-  {| r_req := r_req r; r_pc := pc; r_leaked := r_leaked r; r_waits := r_waits r;
-     r_stamp := r_stamp r; r_at := r_at r; r_slept_late := r_slept_late r |}.
+  {| r_req := r_req r; r_pc := pc; r_waits := r_waits r; r_stamp := r_stamp r; r_at := r_at r |}.
 
-Definition decided (m : mux) (n : Z) (r : rstate) (pc : rpc) (leak : bool) : rstate :=
-  {| r_req := r_req r; r_pc := pc; r_leaked := leak; r_waits := r_waits r;
-     r_stamp := Some n; r_at := Some m; r_slept_late := r_slept_late r |}.
+Definition decided (m : mux) (n : Z) (r : rstate) (pc : rpc) : rstate :=
+  {| r_req := r_req r; r_pc := pc; r_waits := r_waits r; r_stamp := Some n; r_at := Some m |}.
 
-Definition sleeping (w : wpc) (r : rstate) (f : frame) : rstate :=
-  {| r_req := r_req r; r_pc := PWaiting f; r_leaked := r_leaked r; r_waits := S (r_waits r);
-     r_stamp := r_stamp r; r_at := r_at r;
-     r_slept_late := r_slept_late r || close_broadcast_done w |}.
+Definition sleeping (r : rstate) (f : frame) : rstate :=
+  {| r_req := r_req r; r_pc := PWaiting f; r_waits := S (r_waits r);
+     r_stamp := r_stamp r; r_at := r_at r |}.
+
+(* the hint closure after its Unlock: h(w, r), or 404 when the part has been evicted *)
+Definition hint_call (h : option handler) : rpc :=
+  match h with Some _ => PCall h | None => PDone R404 end.
 
 (* one step of requester i: its own state and the mutex owner change, nothing else does.
-   m = shared muxer state, w = the writer's pc (ghost use only), n = progress counter (ghost) *)
+   m = shared muxer state, w = the writer's pc (unused), n = progress counter (ghost) *)
 Definition lstep (m : mux) (w : wpc) (n : Z) (i : nat) (r : rstate) (o : option tid)
   : rstate * option tid :=
   match r_pc r with
@@ -268,10 +265,9 @@ Definition lstep (m : mux) (w : wpc) (n : Z) (i : nat) (r : rstate) (o : option 
       end
   | PTest f =>
       match test m (req_query (r_req r)) f with
-      | TExit resp => (decided m n r (PUnlock resp) false, o)
-      | TLeak resp => (decided m n r (PDone resp) true, o)
-      | TBreakHint h => (decided m n r (PUnlockCall h) false, o)
-      | TWait => (sleeping w r f, None)
+      | TExit resp => (decided m n r (PUnlock resp), o)
+      | TBreakHint h => (decided m n r (PUnlockCall h), o)
+      | TWait => (sleeping r f, None)
       end
   | PWaiting _ => (r, o)                                  (* asleep until a Broadcast *)
   | PWoken f =>
@@ -280,7 +276,7 @@ Definition lstep (m : mux) (w : wpc) (n : Z) (i : nat) (r : rstate) (o : option 
       | Some _ => (r, o)
       end
   | PUnlock resp => (set_pc r (PDone resp), None)
-  | PUnlockCall h => (set_pc r (PCall h), None)
+  | PUnlockCall h => (set_pc r (hint_call h), None)
   | PDone _ => (r, o)
   end.
 
@@ -316,7 +312,7 @@ Definition w_holds (w : wpc) : bool :=
   match w with WLocked _ | WRotated | CLocked | CSet | WCrashed => true | _ => false end.
 
 Definition r_holds (r : rstate) : bool :=
-  match r_pc r with PTest _ | PUnlock _ | PUnlockCall _ => true | _ => r_leaked r end.
+  match r_pc r with PTest _ | PUnlock _ | PUnlockCall _ => true | _ => false end.
 
 (* the writer is between a state change and the broadcast that announces it *)
 Definition broadcast_owed (w : wpc) : bool :=
